@@ -87,9 +87,100 @@ def regex_lemmas(ctx, real):
     ctx.solve()
 
 
+# ------------------------------------------------------------------------------------------------
+# P-04c  ChangeBlock._format from its real AST: the text of a block is the header
+#   "package (version) distributions; urgency=<urgency><comment>[, key=value]..." + newline, every change line + newline, the
+# trailer " -- author<separator>date" + newline unless the block has none, and every trailing line + newline - each component
+# exactly as stored, the extra pairs in their stored order; ChangelogCreateError exactly when a required component is missing.
+from vf.pyvc.speclib import SpecLib
+from vf.pyvc.world import World, Contract
+from vf.pyvc.interp import LoopSpec
+from vf.pyvc.values import VObj, VBox, VSeq, VBool, VFunc, NONE, fresh, fresh_name, lift
+from vf.pyvc.driver import verify_contracts
+
+PAIR = ("tuple", ["str", "str"])
+
+
+def fmt_pairs(ps):
+    if len(ps) == 0:
+        return ""
+    return ", " + ps[0][0] + "=" + ps[0][1] + fmt_pairs(ps[1:])
+
+
+def fmt_lines(ls):
+    if len(ls) == 0:
+        return ""
+    return ls[0] + "\n" + fmt_lines(ls[1:])
+
+
+def fmt_header(b):
+    return (the(b.package) + " (" + the(b._raw_version) + ") " + the(b.distributions) + "; urgency=" + the(b.urgency)
+            + b.urgency_comment + fmt_pairs(b.other_pairs.pairs) + "\n")
+
+
+def fmt_trailer(b):
+    if b._no_trailer:
+        return ""
+    t = " --"
+    if b.author is not None:
+        t = t + " " + the(b.author)
+    if b.date is not None:
+        t = t + b._trailer_separator + the(b.date)
+    return t + "\n"
+
+
+def complete(b, allow_missing_author):
+    return (b.package is not None and b._raw_version is not None and b.distributions is not None and b.urgency is not None
+            and (b._no_trailer or allow_missing_author or (b.author is not None and b.date is not None)))
+
+
+class BlockFormat(Contract):
+    locals_order = ['self', 'allow_missing_author', 'block', 'key', 'value', 'change', 'line']
+    target = MOD + ":ChangeBlock._format"
+    modular = False
+    ensures = ("complete(self, allow_missing_author)",
+               "result == fmt_header(self) + fmt_lines(self._changes) + fmt_trailer(self) + fmt_lines(self._trailing)")
+    raises = {"ChangelogCreateError": ("not complete(self, allow_missing_author)",)}
+    loops = {0: LoopSpec(invariants=("0 <= pi and pi <= len(self.other_pairs.pairs)",
+                                     "block + fmt_pairs(self.other_pairs.pairs[pi:]) + '\\n' == fmt_header(self)"),
+                         index="pi", var_types={"key": "str", "value": "str"}),
+             1: LoopSpec(invariants=("0 <= ci and ci <= len(self._changes)",
+                                     "block + fmt_lines(self._changes[ci:]) == fmt_header(self) + fmt_lines(self._changes)"),
+                         index="ci", var_types={"change": "str"}),
+             2: LoopSpec(invariants=("0 <= ti and ti <= len(self._trailing)",
+                                     "block + fmt_lines(self._trailing[ti:]) == fmt_header(self) + fmt_lines(self._changes) + "
+                                     "fmt_trailer(self) + fmt_lines(self._trailing)"),
+                         index="ti", var_types={"line": "str"})}
+
+    def setup(self, ex):
+        pairs = VObj("OrderedPairs", {"pairs": fresh(("list", PAIR), "pairs")}, "other_pairs")
+        me = VObj("ChangeBlock", {"package": fresh(("opt", "str"), "package"), "_raw_version": fresh(("opt", "str"), "version"),
+                                  "distributions": fresh(("opt", "str"), "dists"), "urgency": fresh(("opt", "str"), "urgency"),
+                                  "urgency_comment": fresh("str", "ucomment"), "other_pairs": pairs,
+                                  "_changes": fresh(("list", "str"), "changes"), "_no_trailer": fresh("bool", "no_trailer"),
+                                  "author": fresh(("opt", "str"), "author"), "date": fresh(("opt", "str"), "date"),
+                                  "_trailer_separator": fresh("str", "sep"), "_trailing": fresh(("list", "str"), "trailing")}, "self")
+        return {"self": me, "allow_missing_author": fresh("bool", "allow_missing_author")}
+
+
+def verify_block_format(ctx):
+    sl = SpecLib()
+    w = World(sl)
+    sl.models[("OrderedPairs", "items")] = lambda ex, a, kw: a[0].fields["pairs"]      # dict.items() in insertion order
+    w.spec_env["the"] = VFunc("builtin", "the", fn=lambda ex, a, kw: a[0].val if hasattr(a[0], "isnone") else a[0])
+    for f in (fmt_header, fmt_trailer, complete):
+        w.spec_func(f)
+    w.spec_func(fmt_pairs, rec=dict(args=[("list", PAIR)], ret="str"))
+    w.spec_func(fmt_lines, rec=dict(args=["list:str"], ret="str"))
+    verify_contracts(ctx, w, [BlockFormat()], {})
+    ctx.assumptions.append("the extra header pairs are kept in a dict: its items() come in insertion order (modelled as a list of pairs)")
+    ctx.solve()
+
+
 def run(ctx):
     mod = extract.load(MOD)
     real = mod.real()
+    verify_block_format(ctx)
     for q in ("Changelog.parse_changelog", "ChangeBlock._format", "Changelog._format"):
         node, _ = mod.lookup(q)
         if node is not None:
@@ -164,7 +255,10 @@ def run(ctx):
     ctx.explanation = ("PROVED for all lines (SMT on the real pattern objects): every well-formed header matches topline and every topline "
                        "match contains ';'; trailer head and date are accepted by the corresponding parts of endline; change lines match "
                        "changere and are never taken for a trailer; blank lines match blankline; the line classes of a well-formed changelog "
-                       "are pairwise not confusable by the parser's patterns. NOT proved: the parser state machine and the formatter - "
+                       "are pairwise not confusable by the parser's patterns. ALSO PROVED from the AST: ChangeBlock._format writes header, "
+                       "change lines, trailer and trailing lines exactly from the stored components (three loop invariants; extra pairs "
+                       "in stored order; ChangelogCreateError iff a required component is missing). NOT proved: the parser state "
+                       "machine and Changelog._format - "
                        "BOUNDED part (see module docstring).")
     ctx.assumptions += ["change text contains no line-boundary character other than '\\n' (str input is split with str.splitlines)",
                         "urgency comments contain no ',' (the header is split at commas)"]
